@@ -77,7 +77,8 @@ def call(op, bundle):
                           vt_length=op["vt"], shuffles=bundle["table"] if op["table"] else None,
                           need_path=op.get("path", False), verbose=verbose)
     if f == "decode":
-        return dsw.decode(dna_sequence=bundle["strand"], bit_length=len(bundle["message"]), accessor=acc,
+        return dsw.decode(dna_sequence=bundle["corrupted"] if op.get("corrupted") else bundle["strand"],
+                          bit_length=len(bundle["message"]), accessor=acc,
                           start_index=start, is_faster=False, shuffles=bundle["table"] if op["table"] else None,
                           vt_check=op.get("check"), verbose=verbose)
     if f == "set_vt":
